@@ -4690,58 +4690,78 @@ theorem gen_correct_body_partial (hG : CallRel G R) (body : CmdList) (n : Nat) (
 
 end
 
-/-! ## without directives the reference IS Spec/Eval.renderCmds -/
+/-! ## the reference against Spec/Eval.renderCmds
+
+  `dirCmd ok hb c`: every print of the command has a directive list `ok` accepts (and the command is in the fragment
+  of the reference).  `plainCmd` = no print has a directive (`ok` = `noDirs`). -/
+
+/-- the empty directive list only -/
+def noDirs (ds : List Directive) : Bool := ds.isEmpty
 
 mutual
-  /-- no print of the command has a directive -/
-  def plainCmd (hb : Bool) : Cmd → Bool
-    | .print _ _ dirs => dirs.isEmpty
-    | .ifc _ conds => plainConds hb conds
-    | .switch _ _ cases => plainCases hb cases
-    | .letContent _ _ body => plainBlock hb body
-    | .call _ _ _ _ params => plainParams hb params
+  /-- every print of the command has a directive list that `ok` accepts -/
+  def dirCmd (ok : List Directive → Bool) (hb : Bool) : Cmd → Bool
+    | .print _ _ dirs => ok dirs
+    | .ifc _ conds => dirConds ok hb conds
+    | .switch _ _ cases => dirCases ok hb cases
+    | .letContent _ _ body => dirBlock ok hb body
+    | .call _ _ _ _ params => dirParams ok hb params
     -- a message is rendered part by part only when there is no message bundle
-    | .msg _ _ _ _ _ body => !hb && plainParts hb body
+    | .msg _ _ _ _ _ body => !hb && dirParts ok hb body
     | .forc _ _ _ body ifEmpty =>
-      plainBlock hb body && (match ifEmpty with
+      dirBlock ok hb body && (match ifEmpty with
         | none => true
-        | some b => plainBlock hb b)
+        | some b => dirBlock ok hb b)
     | .rawText .. => true
     | .letValue .. => true
     | .css .. => true
     | .debugger .. => true
     -- `{log}` and the structural nodes are outside the fragment of the reference semantics
     | _ => false
-  def plainParts (hb : Bool) : MsgParts → Bool
+  def dirParts (ok : List Directive → Bool) (hb : Bool) : MsgParts → Bool
     | .nil => true
-    | .text _ _ rest => plainParts hb rest
-    | .ph _ _ body rest => plainPh hb body && plainParts hb rest
-    | .plural _ _ _ cases _ dflt rest => plainPCases hb cases && plainParts hb dflt && plainParts hb rest
-  def plainPCases (hb : Bool) : PluralCases → Bool
+    | .text _ _ rest => dirParts ok hb rest
+    | .ph _ _ body rest => dirPh ok hb body && dirParts ok hb rest
+    | .plural _ _ _ cases _ dflt rest => dirPCases ok hb cases && dirParts ok hb dflt && dirParts ok hb rest
+  def dirPCases (ok : List Directive → Bool) (hb : Bool) : PluralCases → Bool
     | .nil => true
-    | .cons _ _ _ body rest => plainParts hb body && plainPCases hb rest
-  def plainPh (hb : Bool) : MsgPhBody → Bool
+    | .cons _ _ _ body rest => dirParts ok hb body && dirPCases ok hb rest
+  def dirPh (ok : List Directive → Bool) (hb : Bool) : MsgPhBody → Bool
     | .htmlTag .. => true
-    | .cmd c => plainCmd hb c
-  def plainBlock (hb : Bool) : Block → Bool
-    | .mk _ cmds => plainCmds hb cmds
-  def plainCmds (hb : Bool) : CmdList → Bool
+    | .cmd c => dirCmd ok hb c
+  def dirBlock (ok : List Directive → Bool) (hb : Bool) : Block → Bool
+    | .mk _ cmds => dirCmds ok hb cmds
+  def dirCmds (ok : List Directive → Bool) (hb : Bool) : CmdList → Bool
     | .nil => true
-    | .cons c r => plainCmd hb c && plainCmds hb r
-  def plainParams (hb : Bool) : ParamList → Bool
+    | .cons c r => dirCmd ok hb c && dirCmds ok hb r
+  def dirParams (ok : List Directive → Bool) (hb : Bool) : ParamList → Bool
     | .nil => true
-    | .value _ _ _ rest => plainParams hb rest
-    | .content _ _ body rest => plainBlock hb body && plainParams hb rest
-  def plainCases (hb : Bool) : CaseList → Bool
+    | .value _ _ _ rest => dirParams ok hb rest
+    | .content _ _ body rest => dirBlock ok hb body && dirParams ok hb rest
+  def dirCases (ok : List Directive → Bool) (hb : Bool) : CaseList → Bool
     | .nil => true
     -- a {default} (a value-less case) is the LAST case — as `toCases` (`caseJoin`) requires; there the
     -- first-match reading `refCases` and Spec/Eval.renderCases (the default wherever it stands) coincide
     | .cons _ values body rest =>
-      plainBlock hb body && plainCases hb rest && (!values.isEmpty || (match rest with | .nil => true | _ => false))
-  def plainConds (hb : Bool) : CondList → Bool
+      dirBlock ok hb body && dirCases ok hb rest && (!values.isEmpty || (match rest with | .nil => true | _ => false))
+  def dirConds (ok : List Directive → Bool) (hb : Bool) : CondList → Bool
     | .nil => true
-    | .cons _ _ body rest => plainBlock hb body && plainConds hb rest
+    | .cons _ _ body rest => dirBlock ok hb body && dirConds ok hb rest
 end
+
+/-- no print of the command has a directive -/
+abbrev plainCmd (hb : Bool) : Cmd → Bool := dirCmd noDirs hb
+abbrev plainBlock (hb : Bool) : Block → Bool := dirBlock noDirs hb
+abbrev plainCmds (hb : Bool) : CmdList → Bool := dirCmds noDirs hb
+
+/-- Spec/Eval's print (the `.print` clause of `renderCmd` after the argument is evaluated): without a directive
+    semantics a print with directives is `unspec`; an undefined value is an error; the directives left to right, then
+    ToString, HTML-escaped if the flag is still set -/
+def specPrint (dsem : Option Spec.Eval.LibSem) (esc : Bool) (env : SEnv) (dirs : List Directive) (v : Val) : Out Bytes :=
+  if !dirs.isEmpty && (Spec.Eval.dirsOf dsem).isNone then .unspec
+  else if Spec.Eval.isUndef v then .error
+  else (Spec.Eval.runDirs (Spec.Eval.dirsOf dsem) env dirs v esc).bind fun r =>
+    (Spec.Eval.showVal r.1).bind fun s => .val (if r.2 then htmlEscape s else s)
 
 theorem out_bind_val {α β : Type} {o : Out α} {f : α → Out β} {b : β} (h : o.bind f = .val b) : ∃ a, o = .val a ∧ f a = .val b := by
   cases o with
@@ -4773,6 +4793,10 @@ section
 variable (F : Bytes → List Expr → JVal → JOut) (G : Callee) (ae : Autoescape) (hesc : EscapeHtmlIs F)
 variable (reg : Registry.Reg) (hasBundle : Bool) (entry : Spec.Eval.Binds)
 variable (call call' : Registry.Tmpl → Spec.Eval.CallEnv → Out Bytes)
+-- the directive lists admitted, the specification's library semantics, and what links the two prints
+variable (ok : List Directive → Bool) (dsem : Option Spec.Eval.LibSem)
+variable (hle : ∀ (dirs : List Directive) (env : SEnv) (v : Val) (s : Bytes), ok dirs = true →
+  refPrint F ae dirs v = .val s → specPrint dsem (ae != .off) env dirs v = .val s)
 -- the reference's `call` and the specification's: the latter renders what the former does
 variable (hcall : ∀ (name : Bytes) (t : Registry.Tmpl) (ce : Spec.Eval.CallEnv) (out : Bytes),
   Registry.lookup reg name = some t → call t ce = .val out → call' t ce = .val out)
@@ -4849,26 +4873,51 @@ theorem refPrint_nil (v : Val) (s : Bytes) (h : refPrint F ae [] v = .val s) :
     simp only [Out.val.injEq] at h
     exact ⟨s0, hs0, h.symm⟩
 
-include hcall
+/-- the hypothesis `hle` of `ref_le_spec_*` for directive-free prints (any library semantics on the other side) -/
+theorem print_le_noDirs (dsem : Option Spec.Eval.LibSem) (dirs : List Directive) (env : SEnv) (v : Val) (s : Bytes)
+    (hd : noDirs dirs = true) (h : refPrint F ae dirs v = .val s) : specPrint dsem (ae != .off) env dirs v = .val s := by
+  have hd : dirs = [] := by simpa [noDirs] using hd
+  subst hd
+  obtain ⟨s0, hs0, rfl⟩ := refPrint_nil F ae hesc v s h
+  have hu : Spec.Eval.isUndef v = false := by cases v <;> simp_all [Spec.Eval.isUndef, Spec.Eval.showVal]
+  simp [specPrint, hs0, hu, Spec.Eval.Out.bind, Spec.Eval.runDirs]
+
+/-- the `.print` clause of Spec/Eval.renderCmd renders what `specPrint` renders -/
+theorem renderCmd_print_of (escape : Bool) (p : Nat) (arg : Expr) (dirs : List Directive) (env : SEnv) (v : Val) (s : Bytes)
+    (hv : Spec.Eval.eval env arg = .val v) (hs : specPrint dsem escape env dirs v = .val s) :
+    Spec.Eval.renderCmd reg hasBundle escape entry call' dsem (.print p arg dirs) env = .val (s, env) := by
+  rw [Spec.Eval.renderCmd]
+  unfold specPrint at hs
+  split at hs
+  · cases hs
+  · rename_i hc
+    rw [if_neg hc]
+    simp only [hv, Spec.Eval.Out.bind]
+    split at hs
+    · cases hs
+    · rename_i hu
+      rw [if_neg hu]
+      obtain ⟨r, hr, hs⟩ := out_bind_val hs
+      obtain ⟨s0, hs0, hs⟩ := out_bind_val hs
+      simp only [Out.val.injEq] at hs
+      simp [hr, hs0, hs, Spec.Eval.Out.bind]
+
+include hle hcall
 
 mutual
-  theorem ref_le_spec_cmd : ∀ (c : Cmd) (env : SEnv) (r : Bytes × SEnv), plainCmd hasBundle c = true →
-      refCmd F ⟨reg, entry, call⟩ ae c env = .val r → Spec.Eval.renderCmd reg hasBundle (ae != .off) entry call' none c env = .val r
+  theorem ref_le_spec_cmd : ∀ (c : Cmd) (env : SEnv) (r : Bytes × SEnv), dirCmd ok hasBundle c = true →
+      refCmd F ⟨reg, entry, call⟩ ae c env = .val r → Spec.Eval.renderCmd reg hasBundle (ae != .off) entry call' dsem c env = .val r
     | .rawText p t, env, r, _, h => by
       rw [Spec.Eval.renderCmd]
       simpa [refCmd] using h
     | .print p arg dirs, env, r, hp, h => by
-      have hd : dirs = [] := by simpa [plainCmd] using hp
-      subst hd
-      rw [Spec.Eval.renderCmd]
+      have hd : ok dirs = true := by simpa [dirCmd] using hp
       simp only [refCmd] at h
       obtain ⟨v, hv, h⟩ := out_bind_val h
       obtain ⟨s, hs, h⟩ := out_bind_val h
-      obtain ⟨s0, hs0, rfl⟩ := refPrint_nil F ae hesc v s hs
       simp only [Out.val.injEq] at h
       subst h
-      have hu : Spec.Eval.isUndef v = false := by cases v <;> simp_all [Spec.Eval.isUndef, Spec.Eval.showVal]
-      simp [hv, hs0, hu, Spec.Eval.Out.bind, Spec.Eval.runDirs]
+      exact renderCmd_print_of F hesc reg hasBundle entry call' dsem (ae != .off) p arg dirs env v s hv (hle dirs env v s hd hs)
     | .letValue p x e, env, r, _, h => by
       rw [Spec.Eval.renderCmd]
       simpa [refCmd] using h
@@ -4876,10 +4925,10 @@ mutual
       rw [Spec.Eval.renderCmd]
       simp only [refCmd] at h
       obtain ⟨out, ho, h⟩ := out_bind_val h
-      have := ref_le_spec_conds conds env out (by simpa [plainCmd] using hp) ho
+      have := ref_le_spec_conds conds env out (by simpa [dirCmd] using hp) ho
       simp [this, Spec.Eval.Out.bind, h]
     | .msg p id m d bp body, env, r, hp, h => by
-      simp only [plainCmd, Bool.and_eq_true, Bool.not_eq_true'] at hp
+      simp only [dirCmd, Bool.and_eq_true, Bool.not_eq_true'] at hp
       rw [Spec.Eval.renderCmd]
       simp only [hp.1, Bool.false_eq_true, if_false]
       simp only [refCmd] at h
@@ -4900,7 +4949,7 @@ mutual
     | .log .., _, _, _, h => by simp [refCmd] at h
     | .forc p v list body none, env, r, hp, h => by
       rw [Spec.Eval.renderCmd]
-      simp only [plainCmd, Bool.and_eq_true] at hp
+      simp only [dirCmd, Bool.and_eq_true] at hp
       simp only [refCmd] at h
       obtain ⟨lv, hev, h⟩ := out_bind_val h
       rw [hev]
@@ -4918,7 +4967,7 @@ mutual
       | _ => cases h
     | .forc p v list body (some b), env, r, hp, h => by
       rw [Spec.Eval.renderCmd]
-      simp only [plainCmd, Bool.and_eq_true] at hp
+      simp only [dirCmd, Bool.and_eq_true] at hp
       simp only [refCmd] at h
       obtain ⟨lv, hev, h⟩ := out_bind_val h
       rw [hev]
@@ -4941,7 +4990,7 @@ mutual
       simp only [refCmd] at h
       obtain ⟨sv, hsv, h⟩ := out_bind_val h
       obtain ⟨out, ho, h⟩ := out_bind_val h
-      have := ref_le_spec_cases cases sv env out (by simpa [plainCmd] using hp) ho
+      have := ref_le_spec_cases cases sv env out (by simpa [dirCmd] using hp) ho
       rw [Spec.Eval.renderCases] at this
       have e : ∀ {α β : Type} (a : α) (f : α → Out β), (Out.val a).bind f = f a := fun _ _ => rfl
       rw [hsv, e, this, e]
@@ -4957,7 +5006,7 @@ mutual
         obtain ⟨ps, hps, h⟩ := out_bind_val h
         rw [hb]
         simp only [Spec.Eval.Out.bind]
-        rw [ref_le_spec_params params env ps (by simpa [plainCmd] using hp) hps]
+        rw [ref_le_spec_params params env ps (by simpa [dirCmd] using hp) hps]
         obtain ⟨o, ho, h⟩ := out_bind_val h
         dsimp only
         rw [hcall name callee _ o hl ho]
@@ -4973,7 +5022,7 @@ mutual
         obtain ⟨ps, hps, h⟩ := out_bind_val h
         rw [hb]
         simp only [Spec.Eval.Out.bind]
-        rw [ref_le_spec_params params env ps (by simpa [plainCmd] using hp) hps]
+        rw [ref_le_spec_params params env ps (by simpa [dirCmd] using hp) hps]
         obtain ⟨o, ho, h⟩ := out_bind_val h
         dsimp only
         rw [hcall name callee _ o hl ho]
@@ -4989,7 +5038,7 @@ mutual
         obtain ⟨ps, hps, h⟩ := out_bind_val h
         rw [hb]
         simp only [Spec.Eval.Out.bind]
-        rw [ref_le_spec_params params env ps (by simpa [plainCmd] using hp) hps]
+        rw [ref_le_spec_params params env ps (by simpa [dirCmd] using hp) hps]
         obtain ⟨o, ho, h⟩ := out_bind_val h
         dsimp only
         rw [hcall name callee _ o hl ho]
@@ -5009,7 +5058,7 @@ mutual
         cases v <;> simp only [Out.val.injEq, reduceCtorEq] at hb
         subst hb
         simp only [Spec.Eval.Out.bind]
-        rw [ref_le_spec_params params env ps (by simpa [plainCmd] using hp) hps]
+        rw [ref_le_spec_params params env ps (by simpa [dirCmd] using hp) hps]
         obtain ⟨o, ho, h⟩ := out_bind_val h
         dsimp only
         rw [hcall name callee _ o hl ho]
@@ -5018,15 +5067,15 @@ mutual
       rw [Spec.Eval.renderCmd]
       simp only [refCmd] at h
       obtain ⟨out, ho, h⟩ := out_bind_val h
-      rw [ref_le_spec_block body env out (by simpa [plainCmd] using hp) ho]
+      rw [ref_le_spec_block body env out (by simpa [dirCmd] using hp) ho]
       exact h
     | .headerParam .., _, _, _, h => by simp [refCmd] at h
     | .namespace .., _, _, _, h => by simp [refCmd] at h
     | .template .., _, _, _, h => by simp [refCmd] at h
     | .soyDoc .., _, _, _, h => by simp [refCmd] at h
-  theorem ref_le_spec_parts : ∀ (ps : MsgParts) (env : SEnv) (r : Bytes × SEnv), plainParts hasBundle ps = true →
+  theorem ref_le_spec_parts : ∀ (ps : MsgParts) (env : SEnv) (r : Bytes × SEnv), dirParts ok hasBundle ps = true →
       refParts F ⟨reg, entry, call⟩ ae ps env = .val r →
-      Spec.Eval.renderParts reg hasBundle (ae != .off) entry call' none ps env = .val r
+      Spec.Eval.renderParts reg hasBundle (ae != .off) entry call' dsem ps env = .val r
     | .nil, env, r, _, h => by
       rw [Spec.Eval.renderParts]
       simpa [refParts] using h
@@ -5034,10 +5083,10 @@ mutual
       rw [Spec.Eval.renderParts]
       simp only [refParts] at h
       obtain ⟨r1, h1, h⟩ := out_bind_val h
-      rw [ref_le_spec_parts rest env r1 (by simpa [plainParts] using hp) h1]
+      rw [ref_le_spec_parts rest env r1 (by simpa [dirParts] using hp) h1]
       exact h
     | .ph p name body rest, env, r, hp, h => by
-      simp only [plainParts, Bool.and_eq_true] at hp
+      simp only [dirParts, Bool.and_eq_true] at hp
       rw [Spec.Eval.renderParts]
       simp only [refParts] at h
       obtain ⟨r1, h1, h⟩ := out_bind_val h
@@ -5047,7 +5096,7 @@ mutual
       rw [ref_le_spec_parts rest r1.2 r2 hp.2 h2]
       exact h
     | .plural p vn value cases dp dflt rest, env, r, hp, h => by
-      simp only [plainParts, Bool.and_eq_true] at hp
+      simp only [dirParts, Bool.and_eq_true] at hp
       rw [Spec.Eval.renderParts]
       simp only [refParts] at h
       obtain ⟨v, hv, h⟩ := out_bind_val h
@@ -5057,8 +5106,8 @@ mutual
       rename_i i
       obtain ⟨r1, h1, h⟩ := out_bind_val h
       obtain ⟨r2, h2, h⟩ := out_bind_val h
-      have hsp : Spec.Eval.renderPlural reg hasBundle (ae != .off) entry call' none cases
-          (Spec.Eval.renderParts reg hasBundle (ae != .off) entry call' none dflt) i env = .val r1 := by
+      have hsp : Spec.Eval.renderPlural reg hasBundle (ae != .off) entry call' dsem cases
+          (Spec.Eval.renderParts reg hasBundle (ae != .off) entry call' dsem dflt) i env = .val r1 := by
         obtain ⟨q1, q2⟩ := ref_le_spec_plural cases i env hp.1.1
         cases hrp : refPlural F ⟨reg, entry, call⟩ ae cases i env with
         | some rr =>
@@ -5076,16 +5125,16 @@ mutual
       dsimp only
       rw [ref_le_spec_parts rest r1.2 r2 hp.2 h2]
       exact h
-  theorem ref_le_spec_plural : ∀ (cs : PluralCases) (i : Int) (env : SEnv), plainPCases hasBundle cs = true →
+  theorem ref_le_spec_plural : ∀ (cs : PluralCases) (i : Int) (env : SEnv), dirPCases ok hasBundle cs = true →
       (∀ r, refPlural F ⟨reg, entry, call⟩ ae cs i env = some (.val r) →
-        ∀ dfltF, Spec.Eval.renderPlural reg hasBundle (ae != .off) entry call' none cs dfltF i env = .val r) ∧
+        ∀ dfltF, Spec.Eval.renderPlural reg hasBundle (ae != .off) entry call' dsem cs dfltF i env = .val r) ∧
       (refPlural F ⟨reg, entry, call⟩ ae cs i env = none →
-        ∀ dfltF, Spec.Eval.renderPlural reg hasBundle (ae != .off) entry call' none cs dfltF i env = dfltF env)
+        ∀ dfltF, Spec.Eval.renderPlural reg hasBundle (ae != .off) entry call' dsem cs dfltF i env = dfltF env)
     | .nil, i, env, _ => by
       refine ⟨fun r h => by simp [refPlural] at h, fun _ dfltF => ?_⟩
       rw [Spec.Eval.renderPlural]
     | .cons p v bp body rest, i, env, hp => by
-      simp only [plainPCases, Bool.and_eq_true] at hp
+      simp only [dirPCases, Bool.and_eq_true] at hp
       obtain ⟨q1, q2⟩ := ref_le_spec_plural rest i env hp.2
       refine ⟨fun r h dfltF => ?_, fun h dfltF => ?_⟩
       · rw [Spec.Eval.renderPlural]
@@ -5105,19 +5154,19 @@ mutual
         · rename_i hiv
           simp only [hiv, Bool.false_eq_true, if_false]
           exact q2 h dfltF
-  theorem ref_le_spec_ph : ∀ (b : MsgPhBody) (env : SEnv) (r : Bytes × SEnv), plainPh hasBundle b = true →
+  theorem ref_le_spec_ph : ∀ (b : MsgPhBody) (env : SEnv) (r : Bytes × SEnv), dirPh ok hasBundle b = true →
       refPh F ⟨reg, entry, call⟩ ae b env = .val r →
-      Spec.Eval.renderPh reg hasBundle (ae != .off) entry call' none b env = .val r
+      Spec.Eval.renderPh reg hasBundle (ae != .off) entry call' dsem b env = .val r
     | .htmlTag p t, env, r, _, h => by
       rw [Spec.Eval.renderPh]
       simpa [refPh] using h
     | .cmd c, env, r, hp, h => by
       rw [Spec.Eval.renderPh]
       simp only [refPh] at h
-      exact ref_le_spec_cmd c env r (by simpa [plainPh] using hp) h
-  theorem ref_le_spec_params : ∀ (ps : ParamList) (env : SEnv) (out : Spec.Eval.Binds), plainParams hasBundle ps = true →
+      exact ref_le_spec_cmd c env r (by simpa [dirPh] using hp) h
+  theorem ref_le_spec_params : ∀ (ps : ParamList) (env : SEnv) (out : Spec.Eval.Binds), dirParams ok hasBundle ps = true →
       refParams F ⟨reg, entry, call⟩ ae ps env = .val out →
-      Spec.Eval.renderParams reg hasBundle (ae != .off) entry call' none ps env = .val out
+      Spec.Eval.renderParams reg hasBundle (ae != .off) entry call' dsem ps env = .val out
     | .nil, env, out, _, h => by
       rw [Spec.Eval.renderParams]
       simpa [refParams] using h
@@ -5128,11 +5177,11 @@ mutual
       obtain ⟨r, hr, h⟩ := out_bind_val h
       rw [hv]
       simp only [Spec.Eval.Out.bind]
-      rw [ref_le_spec_params rest env r (by simpa [plainParams] using hp) hr]
+      rw [ref_le_spec_params rest env r (by simpa [dirParams] using hp) hr]
       exact h
     | .content p key body rest, env, out, hp, h => by
       rw [Spec.Eval.renderParams]
-      simp only [plainParams, Bool.and_eq_true] at hp
+      simp only [dirParams, Bool.and_eq_true] at hp
       simp only [refParams] at h ⊢
       obtain ⟨o1, ho1, h⟩ := out_bind_val h
       obtain ⟨r, hr, h⟩ := out_bind_val h
@@ -5140,19 +5189,19 @@ mutual
       simp only [Spec.Eval.Out.bind]
       rw [ref_le_spec_params rest env r hp.2 hr]
       exact h
-  theorem ref_le_spec_block : ∀ (b : Block) (env : SEnv) (out : Bytes), plainBlock hasBundle b = true →
-      refBlock F ⟨reg, entry, call⟩ ae b env = .val out → Spec.Eval.renderBlock reg hasBundle (ae != .off) entry call' none b env = .val out
+  theorem ref_le_spec_block : ∀ (b : Block) (env : SEnv) (out : Bytes), dirBlock ok hasBundle b = true →
+      refBlock F ⟨reg, entry, call⟩ ae b env = .val out → Spec.Eval.renderBlock reg hasBundle (ae != .off) entry call' dsem b env = .val out
     | .mk p cmds, env, out, hp, h => by
       rw [Spec.Eval.renderBlock]
-      exact ref_le_spec_cmds cmds env out (by simpa [plainBlock] using hp) (by simpa [refBlock] using h)
-  theorem ref_le_spec_cmds : ∀ (cs : CmdList) (env : SEnv) (out : Bytes), plainCmds hasBundle cs = true →
-      refCmds F ⟨reg, entry, call⟩ ae cs env = .val out → Spec.Eval.renderCmds reg hasBundle (ae != .off) entry call' none cs env = .val out
+      exact ref_le_spec_cmds cmds env out (by simpa [dirBlock] using hp) (by simpa [refBlock] using h)
+  theorem ref_le_spec_cmds : ∀ (cs : CmdList) (env : SEnv) (out : Bytes), dirCmds ok hasBundle cs = true →
+      refCmds F ⟨reg, entry, call⟩ ae cs env = .val out → Spec.Eval.renderCmds reg hasBundle (ae != .off) entry call' dsem cs env = .val out
     | .nil, env, out, _, h => by
       rw [Spec.Eval.renderCmds]
       simpa [refCmds] using h
     | .cons c rest, env, out, hp, h => by
       rw [Spec.Eval.renderCmds]
-      simp only [plainCmds, Bool.and_eq_true] at hp
+      simp only [dirCmds, Bool.and_eq_true] at hp
       simp only [refCmds] at h
       obtain ⟨r1, h1, h⟩ := out_bind_val h
       obtain ⟨more, h2, h⟩ := out_bind_val h
@@ -5160,13 +5209,13 @@ mutual
       simp only [Spec.Eval.Out.bind]
       rw [ref_le_spec_cmds rest r1.2 more hp.2 h2]
       exact h
-  theorem ref_le_spec_cases : ∀ (cs : CaseList) (sv : Val) (env : SEnv) (out : Bytes), plainCases hasBundle cs = true →
-      refCases F ⟨reg, entry, call⟩ ae cs sv env = .val out → Spec.Eval.renderCases reg hasBundle (ae != .off) entry call' none cs sv env = .val out
+  theorem ref_le_spec_cases : ∀ (cs : CaseList) (sv : Val) (env : SEnv) (out : Bytes), dirCases ok hasBundle cs = true →
+      refCases F ⟨reg, entry, call⟩ ae cs sv env = .val out → Spec.Eval.renderCases reg hasBundle (ae != .off) entry call' dsem cs sv env = .val out
     | .nil, sv, env, out, _, h => by
       rw [Spec.Eval.renderCases, Spec.Eval.renderMatch, Spec.Eval.renderDefault]
       simpa [refCases, Spec.Eval.Out.bind, Spec.Eval.orDefault] using h
     | .cons p values body rest, sv, env, out, hp, h => by
-      simp only [plainCases, Bool.and_eq_true, Bool.or_eq_true, Bool.not_eq_true'] at hp
+      simp only [dirCases, Bool.and_eq_true, Bool.or_eq_true, Bool.not_eq_true'] at hp
       obtain ⟨⟨hpb, hpr⟩, hlast⟩ := hp
       simp only [refCases] at h
       by_cases hem : values.isEmpty = true
@@ -5200,14 +5249,14 @@ mutual
           have := ih h
           rw [Spec.Eval.renderCases] at this
           exact this
-  theorem ref_le_spec_conds : ∀ (cs : CondList) (env : SEnv) (out : Bytes), plainConds hasBundle cs = true →
-      refConds F ⟨reg, entry, call⟩ ae cs env = .val out → Spec.Eval.renderConds reg hasBundle (ae != .off) entry call' none cs env = .val out
+  theorem ref_le_spec_conds : ∀ (cs : CondList) (env : SEnv) (out : Bytes), dirConds ok hasBundle cs = true →
+      refConds F ⟨reg, entry, call⟩ ae cs env = .val out → Spec.Eval.renderConds reg hasBundle (ae != .off) entry call' dsem cs env = .val out
     | .nil, env, out, _, h => by
       rw [Spec.Eval.renderConds]
       simpa [refConds] using h
     | .cons p (some c) body rest, env, out, hp, h => by
       rw [Spec.Eval.renderConds]
-      simp only [plainConds, Bool.and_eq_true] at hp
+      simp only [dirConds, Bool.and_eq_true] at hp
       simp only [refConds] at h ⊢
       obtain ⟨v, hv, h⟩ := out_bind_val h
       rw [hv]
@@ -5219,7 +5268,7 @@ mutual
         exact ref_le_spec_conds rest env out hp.2 h
     | .cons p none body rest, env, out, hp, h => by
       rw [Spec.Eval.renderConds]
-      simp only [plainConds, Bool.and_eq_true] at hp
+      simp only [dirConds, Bool.and_eq_true] at hp
       simp only [refConds] at h ⊢
       exact ref_le_spec_block body env out hp.1 h
 end
@@ -5228,7 +5277,7 @@ end
 
 /-! ### … and conversely: what Spec/Eval renders, the reference renders
 
-  On the directive-free fragment (`plainCmd`), with soy.$$escapeHtml read as `htmlEscape ∘ ToString`, the reference
+  On the directive-free fragment (`dirCmd`), with soy.$$escapeHtml read as `htmlEscape ∘ ToString`, the reference
   semantics renders every text Spec/Eval renders (its print falls back to Spec/Eval's where the JSON image is silent:
   `refPrint_nil_eq`).  With `ref_le_spec_*`: on this fragment the two agree on the texts. -/
 
@@ -5241,13 +5290,13 @@ variable (hcall : ∀ (name : Bytes) (t : Registry.Tmpl) (ce : Spec.Eval.CallEnv
 include hesc hcall
 
 mutual
-  theorem spec_le_ref_cmd : ∀ (c : Cmd) (env : SEnv) (r : Bytes × SEnv), plainCmd hasBundle c = true →
+  theorem spec_le_ref_cmd : ∀ (c : Cmd) (env : SEnv) (r : Bytes × SEnv), dirCmd noDirs hasBundle c = true →
       Spec.Eval.renderCmd reg hasBundle (ae != .off) entry call' none c env = .val r → refCmd F ⟨reg, entry, call⟩ ae c env = .val r
     | .rawText p t, env, r, _, h => by
       rw [Spec.Eval.renderCmd] at h
       simpa [refCmd] using h
     | .print p arg dirs, env, r, hp, h => by
-      have hd : dirs = [] := by simpa [plainCmd] using hp
+      have hd : dirs = [] := by simpa [dirCmd, noDirs] using hp
       subst hd
       rw [Spec.Eval.renderCmd] at h
       simp only [List.isEmpty_nil, Bool.not_true, Bool.false_and, Bool.false_eq_true, if_false] at h
@@ -5267,10 +5316,10 @@ mutual
       rw [Spec.Eval.renderCmd] at h
       simp only [refCmd]
       obtain ⟨out, ho, h⟩ := out_bind_val h
-      rw [spec_le_ref_conds conds env out (by simpa [plainCmd] using hp) ho]
+      rw [spec_le_ref_conds conds env out (by simpa [dirCmd] using hp) ho]
       exact h
     | .msg p id m d bp body, env, r, hp, h => by
-      simp only [plainCmd, Bool.and_eq_true, Bool.not_eq_true'] at hp
+      simp only [dirCmd, Bool.and_eq_true, Bool.not_eq_true'] at hp
       rw [Spec.Eval.renderCmd] at h
       rw [if_pos (by simp [hp.1])] at h
       simp only [refCmd]
@@ -5286,10 +5335,10 @@ mutual
     | .debugger p, env, r, _, h => by
       rw [Spec.Eval.renderCmd] at h
       simpa [refCmd] using h
-    | .log .., _, _, hp, _ => by simp [plainCmd] at hp
+    | .log .., _, _, hp, _ => by simp [dirCmd] at hp
     | .forc p v list body none, env, r, hp, h => by
       rw [Spec.Eval.renderCmd] at h
-      simp only [plainCmd, Bool.and_eq_true] at hp
+      simp only [dirCmd, Bool.and_eq_true] at hp
       simp only [refCmd]
       obtain ⟨lv, hev, h⟩ := out_bind_val h
       rw [hev]
@@ -5307,7 +5356,7 @@ mutual
       | _ => cases h
     | .forc p v list body (some b), env, r, hp, h => by
       rw [Spec.Eval.renderCmd] at h
-      simp only [plainCmd, Bool.and_eq_true] at hp
+      simp only [dirCmd, Bool.and_eq_true] at hp
       simp only [refCmd]
       obtain ⟨lv, hev, h⟩ := out_bind_val h
       rw [hev]
@@ -5334,7 +5383,7 @@ mutual
         rw [Spec.Eval.renderCases]; exact ho
       rw [hsv]
       simp only [Spec.Eval.Out.bind]
-      rw [spec_le_ref_cases cases sv env out (by simpa [plainCmd] using hp) hc]
+      rw [spec_le_ref_cases cases sv env out (by simpa [dirCmd] using hp) hc]
       exact h
     | .call p name true none params, env, r, hp, h => by
       rw [Spec.Eval.renderCmd] at h
@@ -5347,7 +5396,7 @@ mutual
         obtain ⟨ps, hps, h⟩ := out_bind_val h
         rw [hb]
         simp only [Spec.Eval.Out.bind]
-        rw [spec_le_ref_params params env ps (by simpa [plainCmd] using hp) hps]
+        rw [spec_le_ref_params params env ps (by simpa [dirCmd] using hp) hps]
         obtain ⟨o, ho, h⟩ := out_bind_val h
         dsimp only
         rw [hcall name callee _ o hl ho]
@@ -5363,7 +5412,7 @@ mutual
         obtain ⟨ps, hps, h⟩ := out_bind_val h
         rw [hb]
         simp only [Spec.Eval.Out.bind]
-        rw [spec_le_ref_params params env ps (by simpa [plainCmd] using hp) hps]
+        rw [spec_le_ref_params params env ps (by simpa [dirCmd] using hp) hps]
         obtain ⟨o, ho, h⟩ := out_bind_val h
         dsimp only
         rw [hcall name callee _ o hl ho]
@@ -5379,7 +5428,7 @@ mutual
         obtain ⟨ps, hps, h⟩ := out_bind_val h
         rw [hb]
         simp only [Spec.Eval.Out.bind]
-        rw [spec_le_ref_params params env ps (by simpa [plainCmd] using hp) hps]
+        rw [spec_le_ref_params params env ps (by simpa [dirCmd] using hp) hps]
         obtain ⟨o, ho, h⟩ := out_bind_val h
         dsimp only
         rw [hcall name callee _ o hl ho]
@@ -5399,7 +5448,7 @@ mutual
         cases v <;> simp only [Out.val.injEq, reduceCtorEq] at hb
         subst hb
         simp only [Spec.Eval.Out.bind]
-        rw [spec_le_ref_params params env ps (by simpa [plainCmd] using hp) hps]
+        rw [spec_le_ref_params params env ps (by simpa [dirCmd] using hp) hps]
         obtain ⟨o, ho, h⟩ := out_bind_val h
         dsimp only
         rw [hcall name callee _ o hl ho]
@@ -5408,13 +5457,13 @@ mutual
       rw [Spec.Eval.renderCmd] at h
       simp only [refCmd]
       obtain ⟨out, ho, h⟩ := out_bind_val h
-      rw [spec_le_ref_block body env out (by simpa [plainCmd] using hp) ho]
+      rw [spec_le_ref_block body env out (by simpa [dirCmd] using hp) ho]
       exact h
-    | .headerParam .., _, _, hp, _ => by simp [plainCmd] at hp
-    | .namespace .., _, _, hp, _ => by simp [plainCmd] at hp
-    | .template .., _, _, hp, _ => by simp [plainCmd] at hp
-    | .soyDoc .., _, _, hp, _ => by simp [plainCmd] at hp
-  theorem spec_le_ref_parts : ∀ (ps : MsgParts) (env : SEnv) (r : Bytes × SEnv), plainParts hasBundle ps = true →
+    | .headerParam .., _, _, hp, _ => by simp [dirCmd] at hp
+    | .namespace .., _, _, hp, _ => by simp [dirCmd] at hp
+    | .template .., _, _, hp, _ => by simp [dirCmd] at hp
+    | .soyDoc .., _, _, hp, _ => by simp [dirCmd] at hp
+  theorem spec_le_ref_parts : ∀ (ps : MsgParts) (env : SEnv) (r : Bytes × SEnv), dirParts noDirs hasBundle ps = true →
       Spec.Eval.renderParts reg hasBundle (ae != .off) entry call' none ps env = .val r →
       refParts F ⟨reg, entry, call⟩ ae ps env = .val r
     | .nil, env, r, _, h => by
@@ -5424,10 +5473,10 @@ mutual
       rw [Spec.Eval.renderParts] at h
       simp only [refParts]
       obtain ⟨r1, h1, h⟩ := out_bind_val h
-      rw [spec_le_ref_parts rest env r1 (by simpa [plainParts] using hp) h1]
+      rw [spec_le_ref_parts rest env r1 (by simpa [dirParts] using hp) h1]
       exact h
     | .ph p name body rest, env, r, hp, h => by
-      simp only [plainParts, Bool.and_eq_true] at hp
+      simp only [dirParts, Bool.and_eq_true] at hp
       rw [Spec.Eval.renderParts] at h
       simp only [refParts]
       obtain ⟨r1, h1, h⟩ := out_bind_val h
@@ -5437,7 +5486,7 @@ mutual
       rw [spec_le_ref_parts rest r1.2 r2 hp.2 h2]
       exact h
     | .plural p vn value cases dp dflt rest, env, r, hp, h => by
-      simp only [plainParts, Bool.and_eq_true] at hp
+      simp only [dirParts, Bool.and_eq_true] at hp
       rw [Spec.Eval.renderParts] at h
       simp only [refParts]
       obtain ⟨v, hv, h⟩ := out_bind_val h
@@ -5460,7 +5509,7 @@ mutual
       rw [spec_le_ref_parts rest r1.2 r2 hp.2 h2]
       exact h
   theorem spec_le_ref_plural : ∀ (cs : PluralCases) (i : Int) (env : SEnv) (dfltF : SEnv → Spec.Eval.ROut) (r : Bytes × SEnv),
-      plainPCases hasBundle cs = true →
+      dirPCases noDirs hasBundle cs = true →
       Spec.Eval.renderPlural reg hasBundle (ae != .off) entry call' none cs dfltF i env = .val r →
       refPlural F ⟨reg, entry, call⟩ ae cs i env = some (.val r) ∨
         (refPlural F ⟨reg, entry, call⟩ ae cs i env = none ∧ dfltF env = .val r)
@@ -5468,7 +5517,7 @@ mutual
       rw [Spec.Eval.renderPlural] at h
       exact Or.inr ⟨by simp [refPlural], h⟩
     | .cons p v bp body rest, i, env, dfltF, r, hp, h => by
-      simp only [plainPCases, Bool.and_eq_true] at hp
+      simp only [dirPCases, Bool.and_eq_true] at hp
       rw [Spec.Eval.renderPlural] at h
       simp only [refPlural]
       by_cases hiv : (i == v) = true
@@ -5476,7 +5525,7 @@ mutual
         exact Or.inl (by rw [spec_le_ref_parts body env r hp.1 h])
       · simp only [hiv, Bool.false_eq_true, if_false] at h ⊢
         exact spec_le_ref_plural rest i env dfltF r hp.2 h
-  theorem spec_le_ref_ph : ∀ (b : MsgPhBody) (env : SEnv) (r : Bytes × SEnv), plainPh hasBundle b = true →
+  theorem spec_le_ref_ph : ∀ (b : MsgPhBody) (env : SEnv) (r : Bytes × SEnv), dirPh noDirs hasBundle b = true →
       Spec.Eval.renderPh reg hasBundle (ae != .off) entry call' none b env = .val r →
       refPh F ⟨reg, entry, call⟩ ae b env = .val r
     | .htmlTag p t, env, r, _, h => by
@@ -5485,8 +5534,8 @@ mutual
     | .cmd c, env, r, hp, h => by
       rw [Spec.Eval.renderPh] at h
       simp only [refPh]
-      exact spec_le_ref_cmd c env r (by simpa [plainPh] using hp) h
-  theorem spec_le_ref_params : ∀ (ps : ParamList) (env : SEnv) (out : Spec.Eval.Binds), plainParams hasBundle ps = true →
+      exact spec_le_ref_cmd c env r (by simpa [dirPh] using hp) h
+  theorem spec_le_ref_params : ∀ (ps : ParamList) (env : SEnv) (out : Spec.Eval.Binds), dirParams noDirs hasBundle ps = true →
       Spec.Eval.renderParams reg hasBundle (ae != .off) entry call' none ps env = .val out →
       refParams F ⟨reg, entry, call⟩ ae ps env = .val out
     | .nil, env, out, _, h => by
@@ -5499,11 +5548,11 @@ mutual
       obtain ⟨r, hr, h⟩ := out_bind_val h
       rw [hv]
       simp only [Spec.Eval.Out.bind]
-      rw [spec_le_ref_params rest env r (by simpa [plainParams] using hp) hr]
+      rw [spec_le_ref_params rest env r (by simpa [dirParams] using hp) hr]
       exact h
     | .content p key body rest, env, out, hp, h => by
       rw [Spec.Eval.renderParams] at h
-      simp only [plainParams, Bool.and_eq_true] at hp
+      simp only [dirParams, Bool.and_eq_true] at hp
       simp only [refParams]
       obtain ⟨o1, ho1, h⟩ := out_bind_val h
       obtain ⟨r, hr, h⟩ := out_bind_val h
@@ -5511,20 +5560,20 @@ mutual
       simp only [Spec.Eval.Out.bind]
       rw [spec_le_ref_params rest env r hp.2 hr]
       exact h
-  theorem spec_le_ref_block : ∀ (b : Block) (env : SEnv) (out : Bytes), plainBlock hasBundle b = true →
+  theorem spec_le_ref_block : ∀ (b : Block) (env : SEnv) (out : Bytes), dirBlock noDirs hasBundle b = true →
       Spec.Eval.renderBlock reg hasBundle (ae != .off) entry call' none b env = .val out → refBlock F ⟨reg, entry, call⟩ ae b env = .val out
     | .mk p cmds, env, out, hp, h => by
       rw [Spec.Eval.renderBlock] at h
       simp only [refBlock]
-      exact spec_le_ref_cmds cmds env out (by simpa [plainBlock] using hp) h
-  theorem spec_le_ref_cmds : ∀ (cs : CmdList) (env : SEnv) (out : Bytes), plainCmds hasBundle cs = true →
+      exact spec_le_ref_cmds cmds env out (by simpa [dirBlock] using hp) h
+  theorem spec_le_ref_cmds : ∀ (cs : CmdList) (env : SEnv) (out : Bytes), dirCmds noDirs hasBundle cs = true →
       Spec.Eval.renderCmds reg hasBundle (ae != .off) entry call' none cs env = .val out → refCmds F ⟨reg, entry, call⟩ ae cs env = .val out
     | .nil, env, out, _, h => by
       rw [Spec.Eval.renderCmds] at h
       simpa [refCmds] using h
     | .cons c rest, env, out, hp, h => by
       rw [Spec.Eval.renderCmds] at h
-      simp only [plainCmds, Bool.and_eq_true] at hp
+      simp only [dirCmds, Bool.and_eq_true] at hp
       simp only [refCmds]
       obtain ⟨r1, h1, h⟩ := out_bind_val h
       obtain ⟨more, h2, h⟩ := out_bind_val h
@@ -5532,13 +5581,13 @@ mutual
       simp only [Spec.Eval.Out.bind]
       rw [spec_le_ref_cmds rest r1.2 more hp.2 h2]
       exact h
-  theorem spec_le_ref_cases : ∀ (cs : CaseList) (sv : Val) (env : SEnv) (out : Bytes), plainCases hasBundle cs = true →
+  theorem spec_le_ref_cases : ∀ (cs : CaseList) (sv : Val) (env : SEnv) (out : Bytes), dirCases noDirs hasBundle cs = true →
       Spec.Eval.renderCases reg hasBundle (ae != .off) entry call' none cs sv env = .val out → refCases F ⟨reg, entry, call⟩ ae cs sv env = .val out
     | .nil, sv, env, out, _, h => by
       rw [Spec.Eval.renderCases, Spec.Eval.renderMatch, Spec.Eval.renderDefault] at h
       simpa [refCases, Spec.Eval.Out.bind, Spec.Eval.orDefault] using h
     | .cons p values body rest, sv, env, out, hp, h => by
-      simp only [plainCases, Bool.and_eq_true, Bool.or_eq_true, Bool.not_eq_true'] at hp
+      simp only [dirCases, Bool.and_eq_true, Bool.or_eq_true, Bool.not_eq_true'] at hp
       obtain ⟨⟨hpb, hpr⟩, hlast⟩ := hp
       simp only [refCases]
       by_cases hem : values.isEmpty = true
@@ -5577,14 +5626,14 @@ mutual
           apply spec_le_ref_cases rest sv env out hpr
           rw [Spec.Eval.renderCases, ho1]
           exact h
-  theorem spec_le_ref_conds : ∀ (cs : CondList) (env : SEnv) (out : Bytes), plainConds hasBundle cs = true →
+  theorem spec_le_ref_conds : ∀ (cs : CondList) (env : SEnv) (out : Bytes), dirConds noDirs hasBundle cs = true →
       Spec.Eval.renderConds reg hasBundle (ae != .off) entry call' none cs env = .val out → refConds F ⟨reg, entry, call⟩ ae cs env = .val out
     | .nil, env, out, _, h => by
       rw [Spec.Eval.renderConds] at h
       simpa [refConds] using h
     | .cons p (some c) body rest, env, out, hp, h => by
       rw [Spec.Eval.renderConds] at h
-      simp only [plainConds, Bool.and_eq_true] at hp
+      simp only [dirConds, Bool.and_eq_true] at hp
       simp only [refConds] at h ⊢
       obtain ⟨v, hv, h⟩ := out_bind_val h
       rw [hv]
@@ -5596,7 +5645,7 @@ mutual
         exact spec_le_ref_conds rest env out hp.2 h
     | .cons p none body rest, env, out, hp, h => by
       rw [Spec.Eval.renderConds] at h
-      simp only [plainConds, Bool.and_eq_true] at hp
+      simp only [dirConds, Bool.and_eq_true] at hp
       simp only [refConds] at h ⊢
       exact spec_le_ref_block body env out hp.1 h
 end
@@ -5617,7 +5666,8 @@ theorem gen_correct_cmds_spec (hesc : EscapeHtmlIs F) (buf : Bytes)
     ∃ text, Spec.Eval.renderCmds reg hasBundle (ae != .off) entry call none cmds env = .val text ∧
       BufIs buf jenv' (out ++ text) := by
   obtain ⟨text, ht, hb', _⟩ := cmds_ok F G ⟨reg, entry, call⟩ ae hG cmds buf fuel sc r env jenv jenv' out h hs hg hrel hb hx
-  exact ⟨text, ref_le_spec_cmds F ae hesc reg hasBundle entry call call (fun _ _ _ _ _ h => h) cmds env text hplain ht, hb'⟩
+  exact ⟨text, ref_le_spec_cmds F ae hesc reg hasBundle entry call call noDirs none (print_le_noDirs F ae hesc none)
+    (fun _ _ _ _ _ h => h) cmds env text hplain ht, hb'⟩
 
 end
 
